@@ -19,7 +19,7 @@ META = {
         "read at the candidate's index and on the same-day reservation for (candidate date, ticker). R7: intervening SPLIT/UNSPLIT "
         "compound into the look-ahead's cumulative ratio (×= / ÷= by the variant's own ratio) and quantities are rescaled with it "
         "(shared with C10-R2/R3). R6 also requires that claims on a later acquisition are accumulated on its own entry (shared with C02-R3). Does not decide quantities, "
-        "costs or the reservation state machine against the statute. R3 also: every other effect of a look-ahead candidate (a SPLIT/UNSPLIT handed to the ratio helper, …) lies behind the `days ≥ 1` test, so lines dated on the sale's own day act the same wherever they are written. R10: the transaction list is never thinned (dedup/retain/truncate/…) between the caller and the day loop (shared with C02-R10). R2 also: each phase of a day (add acquisitions, match disposals, pool, apply splits) runs once per line of that day — in a loop below the day loop, not on one remembered line. R4 also reads a `sort_by_key` canonical sort."),
+        "costs or the reservation state machine against the statute. R3 also: every other effect of a look-ahead candidate (a SPLIT/UNSPLIT handed to the ratio helper, …) lies behind the `days ≥ 1` test, so lines dated on the sale's own day act the same wherever they are written. R10: the transaction list is never thinned (dedup/retain/truncate/…) between the caller and the day loop (shared with C02-R10). R2 also: each phase of a day (add acquisitions, match disposals, pool, apply splits) runs once per line of that day — in a loop below the day loop, not on one remembered line. R4 also reads a `sort_by_key` canonical sort. R6 also: claims and cost offsets are read under the key they were booked under — a position in the whole transaction list (shared with C09-R5)."),
     "trusted_base": ["chrono: (a − b).num_days() is the signed day difference", "rustc MIR + resolution", "Vec::sort_by is stable"],
 }
 
